@@ -367,7 +367,12 @@ def contains(I, st, container, item):
                     if isinstance(x, Ref) and isinstance(item, Ref) and x.id == item.id:
                         parts.append(True)
                         continue
-                    raise Unsupported("`in` over objects with __eq__")
+                    # list.__contains__: element == item through the objects' __eq__ (no fork, no exception: else unsupported)
+                    outs = list(compare(I, st, "Eq", x, item))
+                    if len(outs) != 1 or isinstance(outs[0][1], Exc) or outs[0][0] is not st:
+                        raise Unsupported("`in` over objects with __eq__ that forks or raises")
+                    parts.append(outs[0][1])
+                    continue
                 parts.append(eq_values(I, st, x, item))
             yield st, disj(parts)
             return
